@@ -241,6 +241,26 @@ func (vr *variableResolver) String() string {
 	return strings.Join(parts, ".")
 }
 
+// structFieldByName is reflect's Value.FieldByName, except that a field
+// promoted from an embedded pointer which is nil does not exist (instead of
+// making reflect panic).
+func structFieldByName(s reflect.Value, name string) reflect.Value {
+	field, has := s.Type().FieldByName(name)
+	if !has {
+		return reflect.Value{}
+	}
+	for _, idx := range field.Index {
+		if s.Kind() == reflect.Ptr {
+			if s.IsNil() {
+				return reflect.Value{}
+			}
+			s = s.Elem()
+		}
+		s = s.Field(idx)
+	}
+	return s
+}
+
 func (vr *variableResolver) resolve(ctx *ExecutionContext) (*Value, error) {
 	var current reflect.Value
 	var isSafe bool
@@ -331,7 +351,7 @@ func (vr *variableResolver) resolve(ctx *ExecutionContext) (*Value, error) {
 					// Calling a field or key
 					switch current.Kind() {
 					case reflect.Struct:
-						current = current.FieldByName(part.s)
+						current = structFieldByName(current, part.s)
 					case reflect.Map:
 						if !reflect.TypeOf(part.s).AssignableTo(current.Type().Key()) {
 							// e.g. a name used on a map with int keys: no such entry
@@ -364,7 +384,7 @@ func (vr *variableResolver) resolve(ctx *ExecutionContext) (*Value, error) {
 						if err != nil {
 							return nil, err
 						}
-						current = current.FieldByName(sv.String())
+						current = structFieldByName(current, sv.String())
 					case reflect.Map:
 						sv, err := part.subscript.Evaluate(ctx)
 						if err != nil {
